@@ -29,6 +29,10 @@ func NewLexCharRange(from, to interface{}) (*LexCharRange, error) {
 		From: newLexCharLit(from),
 		To:   newLexCharLit(to),
 	}
+	if cr.From.Val > cr.To.Val {
+		// an empty range matches nothing, but its item stayed in the lexer item sets and changed what the lexer consumed
+		return nil, fmt.Errorf("empty character range %s-%s", cr.From.String(), cr.To.String())
+	}
 
 	return cr, nil
 }
